@@ -1,4 +1,5 @@
 import os
+import contextvars
 import multiprocessing as mp
 import threading
 import queue
@@ -90,7 +91,9 @@ def fork(res, row_func, num_processors, predicate):
             processes, t_fetch = init_mp(num_processors, row_func, q_in, q_internal)
             # this row is selected: it goes to the workers without asking the predicate about it again
             q_in.put(row)
-            t_prod = threading.Thread(target=producer, args=(res, q_in, q_internal, num_processors, predicate))
+            # the upstream steps keep running under the context of the calling thread (decimal context, ...)
+            t_prod = threading.Thread(target=contextvars.copy_context().run,
+                                      args=(producer, res, q_in, q_internal, num_processors, predicate))
             t_prod.start()
 
             while True:
